@@ -151,7 +151,7 @@ impl Table for Srat {
 // ------------------------------------------------------------------ SLIT
 pub struct Slit;
 pub fn slit_op(a: usize, b: usize, v: u8) -> Op {
-    Op { k: 0, shape: (a as u16) | ((b as u16) << 4), fill: Fill::b(0).with(0, v as u64) }
+    Op { k: 0, shape: (a as u16) | ((b as u16) << 8), fill: Fill::b(0).with(0, v as u64) }
 }
 impl Table for Slit {
     fn name(&self) -> &'static str {
@@ -164,7 +164,7 @@ impl Table for Slit {
         if level == 0 {
             vec![Ctor::new(2, 3, 2)]
         } else {
-            vec![Ctor::new(2, 3, 2), Ctor::new(0, 0, 0), Ctor::new(1, 1, 1), Ctor::new(2, 2, 2)]
+            vec![Ctor::new(2, 3, 2), Ctor::new(0, 0, 0), Ctor::new(1, 1, 1), Ctor::new(2, 2, 2), Ctor::new(2, 60, 2)]
         }
     }
     fn alphabet(&self, c: &Ctor, _h: &[Op], level: u8) -> Vec<Op> {
@@ -174,6 +174,10 @@ impl Table for Slit {
         for a in 0..l {
             for b in 0..l {
                 if level == 0 && !(a == 0 && b == 1 || a == 1 && b == 1 || a == 2 && b == 0) {
+                    continue;
+                }
+                // large matrices: corners, one diagonal and one interior pair only
+                if l > 4 && !((a == 0 && b == 1) || (a == 1 && b == 1) || (a == l - 1 && b == 0) || (a == l - 1 && b == l - 1) || (a == 2 && b == l - 2)) {
                     continue;
                 }
                 for x in vals {
@@ -187,7 +191,7 @@ impl Table for Slit {
         let mut t = SLIT::new(c.oem_id(), c.oem_table_id(), c.oem_rev(), c.p);
         obs(0, &t, &[]);
         for (i, op) in ops.iter().enumerate() {
-            t.set_distance((op.shape & 15) as usize, (op.shape >> 4) as usize, op.fill.u8(0));
+            t.set_distance((op.shape & 255) as usize, (op.shape >> 8) as usize, op.fill.u8(0));
             obs(i + 1, &t, &[]);
         }
     }
@@ -196,7 +200,7 @@ impl Table for Slit {
         let l = c.p as usize;
         let mut m = vec![10u8; l * l];
         for op in ops {
-            let (a, b) = ((op.shape & 15) as usize, (op.shape >> 4) as usize);
+            let (a, b) = ((op.shape & 255) as usize, (op.shape >> 8) as usize);
             m[a * l + b] = op.fill.u8(0);
             m[b * l + a] = op.fill.u8(0);
         }
